@@ -542,6 +542,9 @@ type localEnv struct {
 	cmd  *types.Var
 	defs map[types.Object][]ast.Node // every node that assigns the object
 	encl map[ast.Node][]ast.Node     // parents chain for assignment nodes
+	// roots: parameters of an extracted helper that stand for a field path of the caller's command
+	roots map[types.Object]string
+	depth int
 }
 
 func newLocalEnv(pk *packages.Package, fd *ast.FuncDecl, cmd *types.Var) *localEnv {
@@ -601,6 +604,9 @@ func (env *localEnv) path(e ast.Expr) (string, bool) {
 	case *ast.Ident:
 		if env.cmd != nil && env.pk.TypesInfo.Uses[x] == env.cmd {
 			return "", true
+		}
+		if r, ok := env.roots[env.pk.TypesInfo.Uses[x]]; ok {
+			return r, true
 		}
 	case *ast.SelectorExpr:
 		if base, ok := env.path(x.X); ok {
@@ -766,6 +772,72 @@ func (env *localEnv) norm(e ast.Expr) string {
 	return "?" + exprString(e)
 }
 
+// helperResult: the variable is defined once, by `a, b := helper(args…)` where helper is a function
+// of the same package with a single return statement (its last statement). The result is the
+// environment of the helper, with the parameters that receive command field paths bound to those
+// paths, and the returned expression that the variable receives.
+func (env *localEnv) helperResult(id *ast.Ident) (*localEnv, ast.Expr, bool) {
+	if env.depth > 2 {
+		return nil, nil, false
+	}
+	info := env.pk.TypesInfo
+	obj := info.Uses[id]
+	defs := env.defs[obj]
+	if len(defs) != 1 {
+		return nil, nil, false
+	}
+	as, ok := defs[0].(*ast.AssignStmt)
+	if !ok || len(as.Rhs) != 1 {
+		return nil, nil, false
+	}
+	call, ok := ast.Unparen(as.Rhs[0]).(*ast.CallExpr)
+	if !ok {
+		return nil, nil, false
+	}
+	fn, ok := calleeOf(info, call).(*types.Func)
+	if !ok || fn.Pkg() != env.pk.Types {
+		return nil, nil, false
+	}
+	fd := funcDeclOf(env.pk, fn)
+	if fd == nil || fd.Body == nil || fd == env.fd || len(fd.Body.List) == 0 {
+		return nil, nil, false
+	}
+	k := -1
+	for i, l := range as.Lhs {
+		if lid, ok := l.(*ast.Ident); ok && (info.Defs[lid] == obj || info.Uses[lid] == obj) {
+			k = i
+		}
+	}
+	// exactly one return, the last statement
+	nret := 0
+	ast.Inspect(fd.Body, func(n ast.Node) bool {
+		if _, ok := n.(*ast.FuncLit); ok {
+			return false
+		}
+		if _, ok := n.(*ast.ReturnStmt); ok {
+			nret++
+		}
+		return true
+	})
+	ret, ok := fd.Body.List[len(fd.Body.List)-1].(*ast.ReturnStmt)
+	if !ok || nret != 1 || k < 0 || k >= len(ret.Results) || len(ret.Results) != len(as.Lhs) {
+		return nil, nil, false
+	}
+	sub := newLocalEnv(env.pk, fd, nil)
+	sub.depth = env.depth + 1
+	sub.roots = map[types.Object]string{}
+	sig := fn.Type().(*types.Signature)
+	if sig.Variadic() || sig.Params().Len() != len(call.Args) {
+		return nil, nil, false
+	}
+	for i := 0; i < sig.Params().Len(); i++ {
+		if pth, ok := env.path(call.Args[i]); ok && pth != "" {
+			sub.roots[sig.Params().At(i)] = pth
+		}
+	}
+	return sub, ret.Results[k], true
+}
+
 // sliceElems abstractly evaluates a []any variable that is built by a literal followed by appends
 // at the top level of the function, and by appends inside one range over a command map field.
 func (env *localEnv) sliceElems(e ast.Expr) ([]string, bool) {
@@ -775,6 +847,9 @@ func (env *localEnv) sliceElems(e ast.Expr) ([]string, bool) {
 	}
 	info := env.pk.TypesInfo
 	obj := info.Uses[id]
+	if sub, re, ok := env.helperResult(id); ok {
+		return sub.sliceElems(re)
+	}
 	var out []string
 	okAll := true
 	for _, d := range env.defs[obj] {
@@ -914,6 +989,9 @@ func (env *localEnv) constOnlyString(e ast.Expr, depth int) (string, bool) {
 		defs := env.defs[obj]
 		if len(defs) == 0 {
 			return "", false
+		}
+		if sub, re, ok := env.helperResult(x); ok {
+			return sub.constOnlyString(re, depth+1)
 		}
 		var parts []string
 		for _, d := range defs {
